@@ -20,7 +20,7 @@ Go code modelled (session.go, context.go, peer.go at the pinned commit; as coded
         `rReadErr`   `ReadMessage` returns an error (connection lost / socket closed locally)
         `rCheck`     `(err ∧ no codec) ∨ ¬goonRead()` → leave the loop, frame dropped  [→ gate read.add]
         `rAdd`       `graceCtxWaitGroup.Add(1)`; spawn the handler goroutine
-        `rDLoad`…`rDSock`  `readDisconnected` (status load, switch / blind store PassiveClosing, ctx wait,
+        `rDLoad`…`rDSock`  `readDisconnected` (status load, switch / compare-and-swap to PassiveClosing (load again when it fails), ctx wait,
                      cancel of pending calls without reply, ActiveClosing → return, else socket close,
                      PassiveClosed)
   * `handlerCtx.handle` (CALL: `handleCall`, REPLY: `handleReply`), `Push`   handler threads
@@ -238,7 +238,10 @@ def step (s : St) : Ev → Option St
   | .rDGo =>
     match s.reader with
     | .dgo st =>
-      if st = .ok then some { s with status := .pclosing, reader := .dwait false }
+      if st = .ok then
+        -- `tryChangeStatus(statusPassiveClosing, status)`; when it fails: load again
+        if s.status = .ok then some { s with status := .pclosing, reader := .dwait false }
+        else some { s with reader := .dload }
       else if st = .closing then some { s with reader := .dwait true }
       else some { s with reader := .rexit }
     | _ => none
